@@ -436,6 +436,72 @@ Section ResumeProofs.
     cbn. rewrite Est. rewrite Hst in Hdec. rewrite Hdis in *. repeat split; auto.
   Qed.
 
+  (* ---------- fall-back ---------------------------------------------------------------------------- *)
+  (* what the property observes of a connection (everything but the ticket that was offered) *)
+  Definition obs_of (r : crec) := (r_cls r, r_vers r, r_suite r, r_ms r, r_ccert r, r_scert r, r_stored r).
+
+  (* checkForResumption refuses a missing ticket *)
+  Lemma check_no_ticket : forall gm cfg vers offered, checkR gm cfg vers offered None = None.
+  Proof. intros. unfold checkForResumption_model. destruct (s_disabled cfg); reflexivity. Qed.
+
+  (* A connection that offers a session the server does not resume - the client drops it (suite / version no
+     longer configured), or checkForResumption refuses it (tickets disabled, unknown key, bad MAC, version,
+     suite, policy) - is, for every observable, the connection without a session: same outcome class,
+     version, suite, master secret, peer identities, same ticket issued, same session stored. *)
+  Lemma fallback_is_full_handshake : forall cfg c idx s,
+    (session_usable c s = true ->
+     forall gm vers, server_version (s_mode cfg) (hello_vers (c_kind c)) = Some (gm, vers) ->
+       checkR gm cfg vers (hello_suites c) (Some (cs_ticket s)) = None) ->
+    obs_of (fst (connectM cfg c idx (Some s))) = obs_of (fst (connectM cfg c idx None))
+    /\ snd (connectM cfg c idx (Some s)) = snd (connectM cfg c idx None).
+  Proof.
+    intros cfg c idx s H. unfold connect. cbv zeta.
+    destruct (session_usable c s) eqn:Eu; cbn [option_map].
+    - destruct (server_version (s_mode cfg) (hello_vers (c_kind c))) as [[gm vers]|]; [|split; reflexivity].
+      rewrite (H eq_refl gm vers eq_refl), check_no_ticket.
+      destruct (pick_suite gm cfg vers (hello_suites c)); [|split; reflexivity].
+      destruct (negb (newFinishedHash_prf_ok vers)); [split; reflexivity|].
+      destruct (client_auth (s_auth cfg) (cert_id gm (c_cert c))); [|split; reflexivity].
+      destruct (if c_cache c && negb (s_disabled cfg) then s_keys cfg else [0]); split; reflexivity.
+    - split; reflexivity.
+  Qed.
+
+  (* Once checkForResumption has accepted the ticket there is no way back to a full handshake: the abbreviated
+     handshake completes, or the connection FAILS on both sides - exactly when the stored client certificates no
+     longer verify under the current policy (processCertsFromClient in doResumeHandshake, e.g. after
+     ChangeClientAuth to a verifying policy), or the client's cached session disagrees with what the server
+     resumed (version, suite - processServerHello - or master secret - Finished); a crash only if the key list
+     is empty although an old key was found (impossible) *)
+  Lemma resume_attempt_outcomes : forall cfg c idx s gm vers st old,
+    session_usable c s = true ->
+    server_version (s_mode cfg) (hello_vers (c_kind c)) = Some (gm, vers) ->
+    checkR gm cfg vers (hello_suites c) (Some (cs_ticket s)) = Some (st, old) ->
+    let r := fst (connectM cfg c idx (Some s)) in
+    (r_cls r = Resumed /\ stored_certs_ok (s_auth cfg) (st_certs st) = true
+       /\ cs_vers s = vers /\ cs_suite s = st_suite st /\ cs_ms s = st_ms st)
+    \/ (r_cls r = Failed /\ snd (connectM cfg c idx (Some s)) = None
+        /\ (stored_certs_ok (s_auth cfg) (st_certs st) = false \/ cs_vers s <> vers
+            \/ cs_suite s <> st_suite st \/ cs_ms s <> st_ms st))
+    \/ (r_cls r = Crashed /\ old = true /\ s_keys cfg = []).
+  Proof.
+    intros cfg c idx s gm vers st old Hu Hv Hc. unfold connect. cbv zeta.
+    rewrite Hu, Hv. cbn [option_map]. rewrite Hc.
+    destruct (stored_certs_ok (s_auth cfg) (st_certs st)) eqn:E1; cbn [negb].
+    2:{ right; left. cbn. repeat split; auto. }
+    assert (newFinishedHash_prf_ok vers = true) as -> by reflexivity. cbn [negb].
+    destruct (N.eqb_spec (cs_vers s) vers) as [E2|E2]; cbn [andb negb].
+    2:{ right; left. cbn. repeat split; auto. }
+    destruct (N.eqb_spec (cs_suite s) (st_suite st)) as [E3|E3]; cbn [negb].
+    2:{ right; left. cbn. repeat split; auto. }
+    destruct (N.eqb_spec (cs_ms s) (st_ms st)) as [E4|E4]; cbn [negb].
+    2:{ right; left. cbn. repeat split; auto. }
+    destruct old.
+    - destruct (s_keys cfg) as [|k ks] eqn:Ek.
+      + right; right. cbn. auto.
+      + left. cbn. auto.
+    - left. cbn. auto.
+  Qed.
+
   (* ---------- histories: the invariant ------------------------------------------------------------ *)
   Definition state_ok (log : list crec) (st : sst) : Prop :=
     exists r, nth_error log (N.to_nat (st_ms st)) = Some r /\ r_cls r = Full
